@@ -59,7 +59,9 @@ func (a *chunkAbort) unmarshal(raw []byte) error {
 			return fmt.Errorf("%w: %v", ErrBuildAbortChunkFailed, err) //nolint:errorlint
 		}
 
-		offset += int(e.length())
+		// causes are parameters (RFC 9260 sec 3.2.1): each but the last is padded
+		// to a multiple of four bytes, the padding is not part of its length
+		offset += int(e.length()) + getPadding(int(e.length()))
 		a.errorCauses = append(a.errorCauses, e)
 	}
 
@@ -70,10 +72,13 @@ func (a *chunkAbort) marshal() ([]byte, error) {
 	a.chunkHeader.typ = ctAbort
 	a.flags = 0x00
 	a.raw = []byte{}
-	for _, ec := range a.errorCauses {
+	for i, ec := range a.errorCauses {
 		raw, err := ec.marshal()
 		if err != nil {
 			return nil, err
+		}
+		if i != len(a.errorCauses)-1 {
+			raw = padByte(raw, getPadding(len(raw)))
 		}
 		a.raw = append(a.raw, raw...)
 	}
